@@ -1114,7 +1114,7 @@ impl Ctx {
                 let mut worlds = std::mem::take(&mut self.worlds);
                 let (lhs, res, handles, notes) = {
                     let me: &Ctx = self;
-                    conts.exec(c, &mut worlds, &|h: &HRef| me.resolve(h))
+                    conts.exec(c, &mut worlds, &|h: &HRef| me.resolve(h), me.cur_op)
                 };
                 self.containers = conts;
                 self.worlds = worlds;
